@@ -156,6 +156,7 @@ pub fn all(data: &Value, args: &Vec<&Value>) -> Result<Value, Error> {
     // if it's an object, in case it evaluates to a string or array, which
     // we will then pass on
 
+    let items_are_expressions = first_arg.is_array();
     let _new_item: Value;
     let potentially_evaled_first_arg = match first_arg {
         Value::Object(_) => {
@@ -211,11 +212,18 @@ pub fn all(data: &Value, args: &Vec<&Value>) -> Result<Value, Error> {
             if !res {
                 return Ok(false);
             };
-            let _parsed_item = Parsed::from_value(i)?;
-            // Evaluate each item as we go, in case we can short-circuit
-            let evaluated_item = _parsed_item.evaluate(data)?;
+            // Evaluate each item as we go, in case we can short-circuit.
+            // Only the items of an array written in the rule are
+            // expressions; the items of an evaluated first argument are
+            // data already and must not be interpreted again.
+            let evaluated_item: Value = if items_are_expressions {
+                let _parsed_item = Parsed::from_value(i)?;
+                _parsed_item.evaluate(data)?.into()
+            } else {
+                i.clone()
+            };
             Ok(logic::truthy_from_evaluated(
-                &predicate.evaluate(&evaluated_item.into())?,
+                &predicate.evaluate(&evaluated_item)?,
             ))
         })
     })?;
@@ -238,6 +246,7 @@ pub fn some(data: &Value, args: &Vec<&Value>) -> Result<Value, Error> {
     // if it's an object, in case it evaluates to a string or array, which
     // we will then pass on
 
+    let items_are_expressions = first_arg.is_array();
     let _new_item: Value;
     let potentially_evaled_first_arg = match first_arg {
         Value::Object(_) => {
@@ -293,11 +302,18 @@ pub fn some(data: &Value, args: &Vec<&Value>) -> Result<Value, Error> {
             if res {
                 return Ok(true);
             };
-            let _parsed_item = Parsed::from_value(i)?;
-            // Evaluate each item as we go, in case we can short-circuit
-            let evaluated_item = _parsed_item.evaluate(data)?;
+            // Evaluate each item as we go, in case we can short-circuit.
+            // Only the items of an array written in the rule are
+            // expressions; the items of an evaluated first argument are
+            // data already and must not be interpreted again.
+            let evaluated_item: Value = if items_are_expressions {
+                let _parsed_item = Parsed::from_value(i)?;
+                _parsed_item.evaluate(data)?.into()
+            } else {
+                i.clone()
+            };
             Ok(logic::truthy_from_evaluated(
-                &predicate.evaluate(&evaluated_item.into())?,
+                &predicate.evaluate(&evaluated_item)?,
             ))
         })
     })?;
